@@ -162,6 +162,44 @@ Theorem C20_wait_live : forall (tr : list wlabel) (s : wstate) (st : status),
 Proof. exact wait_live. Qed.
 Print Assumptions C20_wait_live.
 
+(* Huge buffers.  The request length of one sequential Read / Write (the ops
+   behind ChildStdin::write, ChildStdout::read, ChildStderr::read) for a buffer
+   of n bytes: on io_uring min(n, 2^32 - 1) — a CLAMP, for n = 2^32, a multiple of
+   it or 2^32 + k alike — on the polling driver n itself.  It is never 0 for a
+   non-empty buffer, never more than the buffer, and the identity below 4 GiB. *)
+Theorem C20_request_len : forall b n,
+  (request_len b n <= n)%N /\
+  ((0 < n)%N -> (0 < request_len b n)%N) /\
+  ((n <= U32_MAX)%N -> request_len b n = n) /\
+  ((U32_MAX <= n)%N -> request_len true n = U32_MAX) /\
+  request_len false n = n.
+Proof.
+  intros b n. split; [exact (request_len_le b n)|]. split; [exact (request_len_pos b n)|].
+  split; [exact (request_len_small b n)|]. split; [exact (request_len_huge n)|reflexivity].
+Qed.
+Print Assumptions C20_request_len.
+
+(* Hence, for EVERY buffer length n > 0 (in particular n >= 2^32) on either
+   driver: a write to a pipe that has room moves at least one byte — never Ok(0),
+   never WriteZero — and at most n; a read with capacity n > 0 from a pipe that
+   holds bytes returns at least one — never a premature end of file — and at
+   most n.  The counts are those of the byte-level pipe reference. *)
+Theorem C20_huge_buffers_make_progress :
+  (forall b p n, (0 < n)%N -> 0 < pipe_free p ->
+     (0 < write_accepts p (request_len b n))%N /\ (write_accepts p (request_len b n) <= n)%N) /\
+  (forall b p cap, (0 < cap)%N -> pq p <> [] ->
+     (0 < read_returns p (request_len b cap))%N /\ (read_returns p (request_len b cap) <= cap)%N) /\
+  (forall p d, rclosed p = false -> d <> [] -> 0 < pipe_free p ->
+     snd (pipe_write p d) = WOk (N.to_nat (write_accepts p (N.of_nat (length d))))) /\
+  (forall p k, pq p <> [] -> 0 < k ->
+     exists p' bs, pipe_read p k = (p', ROk bs) /\
+                   length bs = N.to_nat (read_returns p (N.of_nat k))).
+Proof.
+  split; [exact write_accepts_pos|]. split; [exact read_returns_pos|].
+  split; [exact write_accepts_is_pipe_write|exact read_returns_is_pipe_read].
+Qed.
+Print Assumptions C20_huge_buffers_make_progress.
+
 (* ---------------------------------------------------------------------- *)
 (* non-vacuity *)
 
@@ -223,3 +261,16 @@ Example C20_nonvacuous_wait_live :
             wchild s = CZombie 9%N /\ wwait s <> WIdle.
 Proof. eexists. vm_compute. repeat split; try reflexivity; discriminate. Qed.
 Print Assumptions C20_nonvacuous_wait_live.
+
+(* 2^32, 2 * 2^32 and 2^32 + 5 bytes: clamped on io_uring (a truncation modulo
+   2^32 would give 0, 0 and 5), untouched on polling; an empty 64 KiB pipe takes
+   65536 of them *)
+Example C20_nonvacuous_huge :
+  request_len true 4294967296 = 4294967295%N /\
+  request_len true 8589934592 = 4294967295%N /\
+  request_len true 4294967301 = 4294967295%N /\
+  request_len false 4294967301 = 4294967301%N /\
+  write_accepts (pipe_new 65536) (request_len true 4294967296) = 65536%N /\
+  read_returns (pipe_with_q (pipe_new 65536) [1; 2; 3]%N) (request_len true 8589934592) = 3%N.
+Proof. vm_compute. repeat split; reflexivity. Qed.
+Print Assumptions C20_nonvacuous_huge.
